@@ -180,6 +180,74 @@ def random_raw(rng, sig, star=None):
     return raw
 
 
+def guided_raw(rng, sig):
+    """A call built to bind (positional prefix + keywords for the rest), then
+    possibly perturbed and partly folded into displays / star-arguments, so
+    that accepted and rejected calls are both frequent."""
+    pp = [p for p in sig if p[1] in (PO, POK)]
+    has_vp = any(p[1] == VP for p in sig)
+    has_vk = any(p[1] == VK for p in sig)
+    npo = sum(1 for p in sig if p[1] == PO)
+    k = rng.randint(min(npo, len(pp)), len(pp)) if pp else 0
+    npos = k + (rng.choice([0, 1, 2]) if has_vp and k == len(pp) else 0)
+    kws = []
+    for i, (n, kd, d) in enumerate(p for p in sig if p[1] in (PO, POK, KO)):
+        filled = kd in (PO, POK) and [q[0] for q in pp].index(n) < k
+        if filled or kd == PO:
+            continue
+        if not d or rng.random() < 0.4:
+            kws.append(n)
+    if has_vk and rng.random() < 0.4:
+        kws.append(STRANGERS[0])
+    rng.shuffle(kws)
+    r = rng.random()
+    if r < 0.12 and kws:
+        kws.pop(rng.randrange(len(kws)))
+    elif r < 0.2:
+        kws.append(rng.choice([n for n in ALLNAMES if n not in kws]))
+    elif r < 0.27:
+        npos += 1
+    elif r < 0.33 and npos:
+        npos -= 1
+    # fold into raw items
+    raw = []
+    star = rng.random() < 0.5
+    cut = rng.randint(0, npos) if star and rng.random() < 0.6 else None
+    i = 0
+    while i < npos:
+        if cut is not None and i == cut:
+            raw.append(["su", rng.choice(["list", "tuple"])])
+            if rng.random() < 0.85:
+                break
+            cut = None
+            continue
+        if rng.random() < 0.15:
+            ln = rng.randint(0, min(3, npos - i))
+            raw.append(["sl", ln])
+            i += ln
+        else:
+            raw.append(["p"])
+            i += 1
+    if cut is not None and cut == npos and not any(x[0] == "su" for x in raw):
+        raw.append(["su", rng.choice(["list", "tuple"])])
+    drop = set()
+    if star and kws and rng.random() < 0.6:
+        drop = set(rng.sample(kws, rng.randint(1, len(kws))))
+    lit = []
+    for n in kws:
+        if n in drop:
+            continue
+        if rng.random() < 0.2:
+            lit.append(n)
+        else:
+            raw.append(["k", n])
+    if lit:
+        raw.append(["kl", lit])
+    if drop or (star and rng.random() < 0.3):
+        raw.append(["ku"])
+    return raw
+
+
 def is_concrete(raw):
     return not any(r[0] in ("su", "ku") for r in raw)
 
@@ -448,7 +516,7 @@ MAXLEN = 4
 
 def expansions(sig, raw):
     """All expansions of the star-arguments of unknown length, up to length
-    MAXLEN each: yields (nonempty_everywhere, npos, kwnames) — the keyword
+    max(MAXLEN, number of parameters + 1) each: yields (nonempty_everywhere, npos, kwnames) — the keyword
     names drawn for **kw are parameter names and one fresh name, minus the
     explicit keywords (an expansion repeating an explicit keyword always
     raises TypeError and cannot matter for either direction)."""
@@ -464,9 +532,11 @@ def expansions(sig, raw):
     fresh = [n for n in ALLNAMES if n not in explicit and n not in [p[0] for p in sig]][:1]
     cands = [p[0] for p in sig if p[0] not in explicit] + fresh
     # several *xs: only the total matters, but "every star-argument non-empty" needs >= nsu
-    pos_extra = range(0, MAXLEN * nsu + 1) if nsu else [0]
+    # lengths: at least MAXLEN, and enough to fill every parameter (a bound of 4 would
+    # miss the only binding expansion of f(**kw) for a def with 5 required parameters)
+    pos_extra = range(0, max(MAXLEN, len(sig) + 1) * nsu + 1) if nsu else [0]
     if nku:
-        kw_sets = [c for r in range(0, MAXLEN + 1) for c in itertools.combinations(cands, r)]
+        kw_sets = [c for r in range(0, max(MAXLEN, len(cands)) + 1) for c in itertools.combinations(cands, r)]
     else:
         kw_sets = [()]
     for pe in pos_extra:
@@ -628,14 +698,14 @@ def run(tier: str, replay: str | None = None):
         small = [s for n in range(0, 4) for s in valid_sigs(n)]
         n_small = 3 if not thorough else 14
         for s in small:
-            for _ in range(n_small):
-                cases.append((s, random_raw(rng, s)))
+            for j in range(n_small):
+                cases.append((s, guided_raw(rng, s) if j % 2 else random_raw(rng, s)))
         for s in valid_sigs(4) if thorough else rng.sample(valid_sigs(4), min(600, len(valid_sigs(4)))):
-            for _ in range(2 if not thorough else 4):
-                cases.append((s, random_raw(rng, s)))
-        for _ in range(6000 if not thorough else 60000):
+            for j in range(2 if not thorough else 6):
+                cases.append((s, guided_raw(rng, s) if j % 2 else random_raw(rng, s)))
+        for j in range(16000 if not thorough else 160000):
             s = random_sig(rng)
-            cases.append((s, random_raw(rng, s)))
+            cases.append((s, guided_raw(rng, s) if j % 3 else random_raw(rng, s)))
         # exhaustive small concrete shapes on every signature with <= 2 (thorough: 3) parameters
         for s in [s for n in range(0, 3 if not thorough else 4) for s in valid_sigs(n)]:
             pn = [p[0] for p in s] + ["x"]
@@ -678,9 +748,8 @@ def run(tier: str, replay: str | None = None):
         model_lines.append("B" + enc_sig(sig) + "|" + enc_raw(raw))
         if is_concrete(raw):
             npos, kws = flat_counts(raw)
-            if len(set(kws)) == len(kws):
-                spec_idx.append(len(model_lines) - 1)
-                spec_lines.append("P" + enc_sig(sig) + "|" + str(npos) + "|" + " ".join(str(CODE[k]) for k in kws))
+            spec_idx.append(len(model_lines) - 1)
+            spec_lines.append("P" + enc_sig(sig) + "|" + str(npos) + "|" + " ".join(str(CODE[k]) for k in kws))
     model_out = lib.ocaml_run(exe, model_lines) if exe is not None else [None] * len(cases)
     spec_out = dict(zip(spec_idx, lib.ocaml_run(exe, spec_lines))) if exe is not None and spec_lines else {}
 
@@ -717,7 +786,7 @@ def run(tier: str, replay: str | None = None):
             some, some_ne = star_oracle(sig, raw)
             bad = None
             if acc and not some:
-                bad = ("accepted", "no expansion (each star-argument up to length 4) binds under CPython")
+                bad = ("accepted", "no expansion (each star-argument up to length max(4, #parameters+1)) binds under CPython")
             elif not acc and some_ne:
                 bad = ("rejected (incompatible_call)", "an expansion taking at least one element from every star-argument binds under CPython")
             if bad:
@@ -743,7 +812,7 @@ def run(tier: str, replay: str | None = None):
     e2e_other = {}
     n_e2e = 0
     if not replay or True:
-        pool = cases if replay else [cases[i] for i in sorted(rng.sample(range(len(cases)), min(len(cases), 1500 if not thorough else 12000)))]
+        pool = cases if replay else [cases[i] for i in sorted(rng.sample(range(len(cases)), min(len(cases), 3000 if not thorough else 20000)))]
         batches = [pool[i : i + 250] for i in range(0, len(pool), 250)]
         verdicts, e2e_other = run_modules(batches)
         for batch, vs in zip(batches, verdicts):
@@ -803,7 +872,7 @@ def run(tier: str, replay: str | None = None):
     )
     rep.assumptions = [
         "CPython 3.12 is the oracle of binding (calls are really executed)",
-        "star-argument expansions are enumerated up to length 4 per star-argument",
+        "star-argument expansions are enumerated up to length max(4, #parameters+1) per star-argument (keyword names: the parameter names plus one fresh name)",
         "translator harness/translate/kinds.py",
         "extraction (ExtrOcamlBasic) and ocaml/c05_driver.ml",
     ]
